@@ -258,6 +258,7 @@ class Parser:
 
         # handle path literal joined-str
         self._path_token: TokenInfo | None = None
+        self._path_owner: ast.JoinedStr | None = None  # the f-string literal whose p prefix is pending in _path_token
 
         # Pass through common tokenizer methods.
         self._mark = self._tokenizer.mark
@@ -567,20 +568,23 @@ class Parser:
                 end_col_offset=end[1] if end else values[-1].end_col_offset,
             )
 
-        if path_tok := (path_tok or self._path_token):
+        # a pending p prefix belongs to one of these parts, not to a literal nested in a replacement field of a later part
+        pending = self._path_token if any(p is self._path_owner for p in parts) else None
+        if path_tok := (path_tok or pending):
             node = xonsh_call("__xonsh__.path_literal", node, **path_tok.loc())
-            self._path_token = None
+            self._path_token = self._path_owner = None
         return node
 
     def handle_fstring(
         self, a: TokenInfo, b: list[ast.FormattedValue | ast.Constant], **locs: int
     ) -> ast.JoinedStr:
+        node = ast.JoinedStr(values=b, **locs)
         path_tok = self._strip_path_prefix(a)
         if path_tok:
-            self._path_token = path_tok
+            self._path_token, self._path_owner = path_tok, node
         if "r" not in a.string.lower():
             self._decode_fstring_parts(b)
-        return ast.JoinedStr(values=b, **locs)
+        return node
 
     def _decode_fstring_parts(self, parts: list[ast.FormattedValue | ast.Constant]) -> None:
         """Literal text of a non-raw f-string (format specs included) holds backslash escapes like any string literal."""
